@@ -37,6 +37,30 @@ Theorem C14_gen_chunks_wf : forall o fuel name body cs, gen_file o fuel name bod
 Proof. exact gen_chunks_wf. Qed.
 Print Assumptions C14_gen_chunks_wf.
 
+(* no template-originated byte reaches the output as generator text: every
+   CText chunk of every generated file is in [in_vocabulary], a set of byte
+   strings that mentions neither the file nor the options; template strings go
+   through CStrLit (the escaper), identifiers through CName, numbers through
+   CNum, the file name through CFile *)
+Theorem C14_no_template_bytes_in_text : forall o fuel name body cs, gen_file o fuel name body = Ok cs ->
+  forall c, In c cs ->
+    match c with
+    | CText t => in_vocabulary t
+    | CStrLit q _ => q = 39 \/ q = 34
+    | CName _ | CNum _ | CFile _ => True
+    end.
+Proof. exact no_template_bytes_in_text. Qed.
+Print Assumptions C14_no_template_bytes_in_text.
+
+(* the same for the walk of ANY node from ANY state (not only whole files): the
+   emission sites below are therefore exhaustive -- whatever constructor carries
+   a template string, walking it appends well-formed chunks only *)
+Theorem C14_walk_chunks_wf : forall o fuel n st x st', jwalk o fuel n st = Ok (x, st') ->
+  Forall (fun kv : bstr * list chunk => Forall chunk_wf (snd kv)) (j_called st) ->
+  exists cs, j_out st' = rev cs ++ j_out st /\ Forall chunk_wf cs.
+Proof. exact walk_chunks_wf. Qed.
+Print Assumptions C14_walk_chunks_wf.
+
 (* literals_denote: every template-originated string written anywhere in a
    generated file is a literal chunk that reads back as the original bytes *)
 Theorem C14_literals_denote : forall o fuel name body cs, gen_file o fuel name body = Ok cs ->
@@ -132,7 +156,7 @@ if (typeof ns.a == 'undefined') { ns.a = {}; }
 ns.a.t = function(opt_data, opt_sb, opt_ijData) {
   var output = '';
   output += 'it\'s \u003C/script\u003E';
-  var m1 = {""a\""b"":1};
+  var m_1 = {""a\""b"":1};
   output += soy.$$escapeHtml('\u2028\\');
   return output;
 };
